@@ -14,22 +14,45 @@
 From Coq Require Import ZArith List Bool String Lia.
 From FV Require Import Model.PegSyntax Model.Peg Model.PegWf Model.ParserStrings Model.ParserAst Model.ParserActions
      Model.Parser Model.ParserFiles Gen.Grammar Proofs.PegProofs Proofs.ParserProofs Proofs.ParserLexProofs
-     Proofs.ParserEvals Proofs.ParserRoundTrip Proofs.ParserRoundTripEnum Proofs.ParserPrefixProofs.
+     Proofs.ParserEvals Proofs.ParserRoundTrip Proofs.ParserRoundTripEnum Proofs.ParserPrefixProofs
+     Proofs.ParserRoundTripStruct Proofs.ParserRoundTripConst Proofs.ParserRoundTripService Proofs.ParserRoundTripFile
+     Proofs.ParserFragmentCheck.
 Import ListNotations.
 Open Scope Z_scope.
 
 (** * Stage 1. Enum numbering
     (repaired code: repo commit "fix: number enum values as Apache Thrift does").
-    For every list of declared enum values, the numbers the Enum action assigns are exactly Apache
-    Thrift's (explicit kept, implicit = previous + 1, first implicit = 0), and names, comments and
-    annotations are untouched.  On the pinned code this was refuted by  A=5, B=2, C  (C = 6). *)
+    For every list of declared enum values whose Thrift numbers stay below the largest 64-bit integer,
+    the numbers the Enum action assigns are exactly Apache Thrift's (explicit kept, implicit =
+    previous + 1, first implicit = 0); names, comments and annotations are untouched whatever the
+    numbers.  On the pinned code this was refuted by  A=5, B=2, C  (C = 6).
+    The range hypothesis is needed: see [c10_enum_numbering_overflow_refuted]. *)
 Theorem c10_enum_numbering : forall evs : list (enum_value * bool),
+  numbering_in_range (map declared_value evs) (-1) ->
   map ev_value (enum_number evs 0) = thrift_numbering (map declared_value evs) (-1)
   /\ map ev_name (enum_number evs 0) = map (fun p => ev_name (fst p)) evs
   /\ map ev_comment (enum_number evs 0) = map (fun p => ev_comment (fst p)) evs
   /\ map ev_anns (enum_number evs 0) = map (fun p => ev_anns (fst p)) evs.
 Proof. exact enum_numbering_full. Qed.
 Print Assumptions c10_enum_numbering.
+
+Theorem c10_enum_numbering_keeps : forall evs : list (enum_value * bool),
+  map ev_name (enum_number evs 0) = map (fun p => ev_name (fst p)) evs
+  /\ map ev_comment (enum_number evs 0) = map (fun p => ev_comment (fst p)) evs
+  /\ map ev_anns (enum_number evs 0) = map (fun p => ev_anns (fst p)) evs.
+Proof. exact enum_numbering_keeps_full. Qed.
+Print Assumptions c10_enum_numbering_keeps.
+
+(** Without the range hypothesis the statement is false of the code: [next = ev.Value + 1] is Go [int]
+    arithmetic, so the value after  A = 9223372036854775807  is -9223372036854775808 where Apache
+    Thrift's previous + 1 is 9223372036854775808 (known finding C10-F22; found by the generator of the
+    proved fragment, replayed on the real parser by tools/props/c10.py, hazard enum_value_after_max_int64). *)
+Theorem c10_enum_numbering_overflow_refuted : forall n1 n2 : bytes,
+  map ev_value (enum_number [(mkev None n1 9223372036854775807 [], true); (mkev None n2 (-1) [], false)] 0)
+  = [9223372036854775807; -9223372036854775808]
+  /\ thrift_numbering [Some 9223372036854775807; None] (-1) = [9223372036854775807; 9223372036854775808].
+Proof. exact enum_numbering_overflow. Qed.
+Print Assumptions c10_enum_numbering_overflow_refuted.
 
 (** * The grammar under the theorems is the one in the source tree now
     node and rule counts agree with the translator's count of the Go literal; every rule reference
@@ -166,12 +189,94 @@ Proof. exact roundtrip_decls. Qed.
 Print Assumptions c10_roundtrip_partial.
 
 (** the enums in that result: names as declared, values = Apache Thrift's numbering of the
-    declared (optional) numbers -- the enum-numbering theorem carried through the whole parser *)
+    declared (optional) numbers -- the enum-numbering theorem carried through the whole parser
+    (same range hypothesis) *)
 Theorem c10_enum_numbering_end_to_end : forall e : en_spec,
+  numbering_in_range (map (fun v => declared (v_tail v)) (e_vs e)) (-1) ->
   map ev_value (en_values (enum_of e)) = thrift_numbering (map (fun v => declared (v_tail v)) (e_vs e)) (-1)
   /\ map ev_name (en_values (enum_of e)) = map (fun v => v_c v :: v_t v) (e_vs e).
 Proof. exact enum_of_numbering. Qed.
 Print Assumptions c10_enum_numbering_end_to_end.
+
+(** * Stage 5, continued: the fragment grown to struct / exception / union declarations with fields,
+    to const declarations and to services with methods.
+    For every sequence of declarations, each either a typedef of a base type or an enum exactly as in
+    [c10_roundtrip_partial], or
+        const <blanks> type name <blanks> = <blanks> value <blanks> LF <blanks/LFs>
+    with  value  the decimal spelling of any 64-bit integer or a double-quoted string of ASCII characters
+    other than the double quote, backslash and line break, or
+        struct|exception|union <blanks> name <blanks/LFs> { <blanks/LFs> field* } <blanks> LF <blanks/LFs>
+    where a field is
+        id <blanks> : <blanks> [required <blanks> | optional <blanks>] type name TAIL
+    with  id  any 64-bit integer in decimal (negative ids included),  type  one of
+        base <blanks>  |  list< <blanks> type > <blanks>  |  set< <blanks> type > <blanks>
+        |  map< <blanks> type , <blanks> type > <blanks>
+    nested to any depth (base = one of the eight base-type keywords; the blanks after an element type
+    are that type's own, so every placement of blanks inside the angle brackets is covered),  name  ANY
+    identifier-shaped byte string, and TAIL one of the three separator styles
+        W  |  W , W'  |  W ; W'
+    (W, W' arbitrary runs of blanks and line breaks; a field with nothing at all after its name only in
+    last position), or
+        service <blanks> name <blanks/LFs> { <blanks/LFs> method* } <blanks> LF <blanks/LFs>
+    where a method is
+        [oneway <blanks/LFs>] (void <blanks/LFs> | type <LF-led blanks/LFs>) name <blanks> ( <blanks/LFs> field* )
+        W2 [throws <blanks/LFs> ( <blanks/LFs> field* ) <blanks>] [, | ;] W3
+    (argument and exception lists are field lists exactly as above; after a throws clause without a
+    separator, W3 is empty or begins with a line break): the parser model -- additionally through Const, ConstValue (Literal, and for an
+    integer the failing Literal, BoolConstant and DoubleConstant -- which consumes sign and digits and
+    backtracks at the missing '.' -- before IntConstant), Literal with its action strconv.Unquote,
+    Struct, Exception, Union, StructLike, FieldList, Field (with its absent doc comment, default value
+    and annotations), FieldModifier, FieldType, ContainerType, MapType, SetType, ListType (with the
+    absent cpp_type), WS, Service (with the absent extends clause), Function, FunctionType, Throws and
+    the failing alternatives of each choice (FieldType failing on the closing brace included), and the
+    actions Const1, Literal1, Struct1, Exception1, Union1, StructLike1, FieldList1, Field1,
+    FieldModifier1, ContainerType1, MapType1, SetType1, ListType1, Service1, Function1, FunctionType1,
+    Throws1 and the const / struct / exception / union / service branches of Grammar1 -- returns exactly
+    the declared typedefs, constants, enums, structs, exceptions, unions and services, each list in source
+    order: every method with its name, oneway flag, return type (none for void), arguments and
+    exceptions (made optional, as the Function action makes them); every constant with its name, type tree and value (the integer, or the string's
+    characters); every field with its id, name, modifier (default when none is written; all fields of a
+    union optional, as the Grammar action makes them), type tree, no default value, no comment, no
+    annotations; and nothing else.
+    PARTIAL with respect to the property: named (identifier) types, field default values, constants
+    with double / bool / list / map / identifier values or strings with escapes or single quotes,
+    service inheritance (extends), scopes, includes, namespaces, comments, doc comments, annotations, cpp_type and the ';' /
+    end-of-file statement terminators are not inside the proved fragment (correspondence runs only). *)
+Theorem c10_roundtrip_structs_partial : forall (w0 : bytes) (ds : list xdecl),
+  run_of p_wsnl w0 -> Forall xdecl_ok ds ->
+  parse_idl (w0 ++ render_file ds) = POk (frugal_of ds).
+Proof. exact roundtrip_file. Qed.
+Print Assumptions c10_roundtrip_structs_partial.
+
+(** the hypotheses of the theorem are decidable: a computable check implies them.  Judge/JParserFragment.v
+    runs this check on every generated description of a file of the fragment and compares the tree
+    [frugal_of ds] with what the REAL parser returned on [w0 ++ render_file ds] *)
+Theorem c10_fragment_check_sound : forall (w0 : bytes) (ds : list xdecl),
+  fragment_okb w0 ds = true -> parse_idl (w0 ++ render_file ds) = POk (frugal_of ds).
+Proof. exact fragment_check_sound. Qed.
+Print Assumptions c10_fragment_check_sound.
+
+(** constant values alone, at the level of the generated rule ConstValue: the decimal spelling of any
+    64-bit integer followed by something that is neither a digit nor '.', and any plain double-quoted
+    string, are consumed exactly and yield the integer / the string's characters, no error recorded *)
+Theorem c10_const_value_roundtrip :
+  (forall z follow cr o es fr, int64 z -> stops p_digit follow -> head_not [46] follow ->
+     evals (CRef 30) cr (mkst (render_int z ++ follow) o es) fr
+           (Done true (VInt z) (mkst follow (o + Z.of_nat (List.length (render_int z))) es) fr))
+  /\ (forall content t cr o es fr, run_of p_strch content -> ascii_next t ->
+     evals (CRef 30) cr (mkst (34 :: content ++ 34 :: t) o es) fr
+           (Done true (VStr content) (mkst t (o + 1 + Z.of_nat (List.length content) + 1) es) fr)).
+Proof. exact (conj const_value_int const_value_str). Qed.
+Print Assumptions c10_const_value_roundtrip.
+
+(** the derivation of a field type alone: FieldType on any rendered type, followed by anything that is
+    not a blank, '/' or '(', consumes exactly the type and returns its tree *)
+Theorem c10_field_type_roundtrip : forall (t : ty_spec) (more : bytes) cr o es fr,
+  ty_ok t -> head_not [32; 9; 13; 47; 40] more ->
+  exists o', evals (CRef 22) cr (mkst (render_ty t more) o es) fr
+                   (Done true (VType (ty_of t)) (mkst more o' es) fr).
+Proof. exact (fun t more cr o es fr Hok Hm => field_type_rule t Hok more cr o es fr Hm). Qed.
+Print Assumptions c10_field_type_roundtrip.
 
 (** * Stage 2 and the separator/comment stages: refuted on the code as it is.
     Intended statement (FieldType longest match): for every identifier x that is not a base-type
@@ -287,6 +392,93 @@ Proof.
     cbn [e_g1 e_c e_t e_w1 e_w2 e_vs e_g3 e_w v_c v_t v_tail].
     repeat split; try reflexivity; try (repeat constructor; unfold ascii; lia); try (unfold ascii; lia); try lia;
       try (left; reflexivity); try (right; reflexivity); try discriminate.
+  - vm_compute. reflexivity.
+Qed.
+
+(** declarations satisfying the hypotheses of the struct round-trip theorem:
+      struct S<lf>{<lf>  1: i32 a,<lf>  2 :required list<map< string ,set<i64>> > b ;<lf>  -3:optional binary c}<sp><lf>
+      union U {1:bool x<lf>}<lf>exception E{}<lf>typedef i64 T<lf>const i32 N = -42<lf>const  map<string,i64> s="a b,c" <lf>
+      service Svc {<lf> oneway void ping(),<lf> list<i32> get (1: string k) throws (1: binary e) ;<lf>}<lf>   *)
+Example c10_roundtrip_structs_nonvacuous :
+  let f1 := mk_fd 1 [] [32] M_default (T_base (bytes_of_string "i32") [32]) 97 [] (FT_sep [] 44 [10; 32; 32]) in
+  let ty2 := T_list [] (T_map [32] (T_base (bytes_of_string "string") [32]) [] (T_set [] (T_base (bytes_of_string "i64") []) []) [32]) [32] in
+  let f2 := mk_fd 2 [32] [] (M_required [32]) ty2 98 [] (FT_sep [32] 59 [10; 32; 32]) in
+  let f3 := mk_fd (-3) [] [] (M_optional [32]) (T_base (bytes_of_string "binary") [32]) 99 [] (FT_plain []) in
+  let d1 := mk_st K_struct [32] (mk_sl 83 [] [10] [10; 32; 32] [f1; f2; f3] [32] []) in
+  let d2 := mk_st K_union [32] (mk_sl 85 [] [32] [] [mk_fd 1 [] [] M_default (T_base (bytes_of_string "bool") [32]) 120 [] (FT_plain [10])] [] []) in
+  let d3 := mk_st K_exception [32] (mk_sl 69 [] [] [] [] [] []) in
+  let d4 := mk_td [32] (bytes_of_string "i64") [32] 84 [] [] [] in
+  let d5 := mk_cn [32] (T_base (bytes_of_string "i32") [32]) 78 [] [32] [32] (CV_int (-42)) [] [] in
+  let d6 := mk_cn [32; 32] (T_map [] (T_base (bytes_of_string "string") []) [] (T_base (bytes_of_string "i64") []) [32])
+                  115 [] [] [] (CV_str (bytes_of_string "a b,c")) [32] [] in
+  let m1 := mk_fn (OW_oneway [32]) (R_void [32]) 112 (bytes_of_string "ing") [] [] [] (FN_sep [] 44 [10; 32]) in
+  let m2 := mk_fn OW_none (R_type (T_list [] (T_base (bytes_of_string "i32") []) [32]) []) 103 (bytes_of_string "et") [32] []
+                  [mk_fd 1 [] [32] M_default (T_base (bytes_of_string "string") [32]) 107 [] (FT_plain [])]
+                  (FN_throws [32] [32] [] [mk_fd 1 [] [32] M_default (T_base (bytes_of_string "binary") [32]) 101 [] (FT_plain [])]
+                             [32] (Some 59) [10]) in
+  let d7 := mk_sv [32] 83 (bytes_of_string "vc") [32] [10; 32] [m1; m2] [] [] in
+  let ds := [X_struct d1; X_struct d2; X_struct d3; X_typedef d4; X_const d5; X_const d6; X_service d7] in
+  Forall xdecl_ok ds
+  /\ render_file ds = cat [bytes_of_string "struct S"; [10]; bytes_of_string "{"; [10]; bytes_of_string "  1: i32 a,"; [10];
+                           bytes_of_string "  2 :required list<map< string ,set<i64>> > b ;"; [10];
+                           bytes_of_string "  -3:optional binary c} "; [10];
+                           bytes_of_string "union U {1:bool x"; [10]; bytes_of_string "}"; [10]; bytes_of_string "exception E{}"; [10];
+                           bytes_of_string "typedef i64 T"; [10]; bytes_of_string "const i32 N = -42"; [10];
+                           bytes_of_string "const  map<string,i64> s="; [34]; bytes_of_string "a b,c"; [34; 32; 10];
+                           bytes_of_string "service Svc {"; [10]; bytes_of_string " oneway void ping(),"; [10];
+                           bytes_of_string " list<i32> get (1: string k) throws (1: binary e) ;"; [10];
+                           bytes_of_string "}"; [10]]
+  /\ parse_idl (render_file ds)
+     = POk (mkfrugal [] [] [mktypedef None [84] (PType (bytes_of_string "i64") None None []) []]
+              [mkconst None [78] (PType (bytes_of_string "i32") None None []) (CInt (-42)) [];
+               mkconst None [115] (PType (bytes_of_string "map") (Some (PType (bytes_of_string "string") None None []))
+                                         (Some (PType (bytes_of_string "i64") None None [])) [])
+                       (CStr (bytes_of_string "a b,c")) []] []
+              [mkstruct None [83]
+                 [mkfield None 1 [97] m_default (PType (bytes_of_string "i32") None None []) None [];
+                  mkfield None 2 [98] m_required
+                    (PType (bytes_of_string "list") None
+                       (Some (PType (bytes_of_string "map") (Some (PType (bytes_of_string "string") None None []))
+                                    (Some (PType (bytes_of_string "set") None (Some (PType (bytes_of_string "i64") None None [])) [])) [])) [])
+                    None [];
+                  mkfield None (-3) [99] m_optional (PType (bytes_of_string "binary") None None []) None []] 0 []]
+              [mkstruct None [69] [] 1 []]
+              [mkstruct None [85] [mkfield None 1 [120] m_optional (PType (bytes_of_string "bool") None None []) None []] 2 []]
+              [mkservice None (bytes_of_string "Svc") []
+                 [mkmethod None (bytes_of_string "ping") true None [] [] [];
+                  mkmethod None (bytes_of_string "get") false
+                    (Some (PType (bytes_of_string "list") None (Some (PType (bytes_of_string "i32") None None [])) []))
+                    [mkfield None 1 [107] m_default (PType (bytes_of_string "string") None None []) None []]
+                    [mkfield None 1 [101] m_optional (PType (bytes_of_string "binary") None None []) None []] []] []]
+              []).
+Proof.
+  split; [|split].
+  - repeat (apply Forall_cons || apply Forall_nil); cbn;
+      repeat match goal with
+             | |- _ /\ _ => split
+             | |- True => exact I
+             | |- Forall _ [] => apply Forall_nil
+             | |- Forall _ (_ :: _) => apply Forall_cons
+             | |- run_of _ _ => unfold run_of
+             | |- st_ok _ => unfold st_ok; cbn
+             | |- sl_ok _ => unfold sl_ok; cbn
+             | |- td_ok _ => unfold td_ok; cbn
+             | |- cn_ok _ => unfold cn_ok; cbn
+             | |- sv_ok _ => unfold sv_ok; cbn
+             | |- fn_ok _ => unfold fn_ok, ow_ok, ret_ok, fn_tail_ok; cbn
+             | |- nl_led _ => exact I
+             | |- fd_ok_l _ _ => unfold fd_ok_l; cbn
+             | |- mod_ok _ => unfold mod_ok; cbn
+             | |- fd_tail_ok_l _ _ => unfold fd_tail_ok_l, fd_tail_ok; cbn
+             | |- is_base _ => unfold is_base, base_lits; cbn
+             | |- is_sep _ => unfold is_sep; lia
+             | |- ascii _ => unfold ascii; lia
+             | |- int64 _ => unfold int64; lia
+             | |- _ \/ _ => vm_compute; repeat (first [left; reflexivity | right])
+             | |- _ = _ -> _ => first [discriminate | intros _; reflexivity]
+             | |- _ = _ => reflexivity
+             end.
+  - vm_compute. reflexivity.
   - vm_compute. reflexivity.
 Qed.
 
